@@ -660,6 +660,7 @@ Plan gen_base(const std::string &profile, uint64_t seed, const JV &opts) {
 			else o.a.set("what", JV::str("timer"));
 			o.dt = g.pick_dt(); g.p.ops.push_back(o);
 		}
+		else if ((profile == "c07" || profile == "base") && x >= 0.255 && x < 0.262 && i > 0) { Op o = g.mk("epollintr"); o.a.set("n", JV::num((double)(1 + r.below(2)))); o.dt = g.pick_dt(); g.p.ops.push_back(o); }
 		else if ((profile == "c05" || profile == "c07") && x < 0.245) { Op o = g.mk("closeeintr"); o.a.set("n", JV::num((double)(1 + r.below(3)))); g.p.ops.push_back(o); }
 		else if (inject_res && x < 0.27) { Op o = g.mk(r.chance(0.6) ? "timerfail" : "epolladdfail"); static const int errs[] = {24, 23, 12, 28}; o.a.set("errno", JV::num(errs[r.below(4)])); g.p.ops.push_back(o); }
 		else if (profile == "c11x" && x < 0.6 && !faulty_cs.empty()) {
